@@ -27,6 +27,8 @@ type UploadFile struct {
 	Name    string   `json:"name"`
 	DataB64 string   `json:"data_b64"`
 	Paths   []string `json:"paths"`
+	// ContentType the client declares for the part (empty: application/octet-stream)
+	ContentType string `json:"content_type,omitempty"`
 	// Size/Seed describe the content of a large file instead of DataB64 (a pattern, not stored in the case file)
 	Size int `json:"size,omitempty"`
 	Seed int `json:"seed,omitempty"`
@@ -50,6 +52,9 @@ type UploadCase struct {
 	Batch bool             `json:"batch"`
 	Ops   []gwx.GQLRequest `json:"ops"`
 	Files []UploadFile     `json:"files"`
+	// SlowPlainUS: every downstream call without files is answered after this delay (a slow service), so that an
+	// operation whose file is read by a child step reads it after the other operations of the batch are done
+	SlowPlainUS int `json:"slow_plain_us,omitempty"`
 }
 
 func uploadWorld() *world.World {
@@ -140,6 +145,14 @@ func checkC19(c *UploadCase) (*ev.Failure, string) {
 	if err != nil {
 		return ev.Failf("harness", "%v", err), ""
 	}
+	if c.SlowPlainUS > 0 {
+		net.Fault = func(callIdx int, url string, reqs []*fake.Received, normal []map[string]interface{}) *fake.FaultResponse {
+			if len(reqs) > 0 && !reqs[0].Multipart {
+				time.Sleep(time.Duration(c.SlowPlainUS) * time.Microsecond)
+			}
+			return nil
+		}
+	}
 	var opsJSON []byte
 	if c.Batch {
 		opsJSON, _ = json.Marshal(c.Ops)
@@ -151,7 +164,7 @@ func checkC19(c *UploadCase) (*ev.Failure, string) {
 	for i, f := range c.Files {
 		key := strconv.Itoa(i)
 		fm[key] = f.Paths
-		files = append(files, mpFile{Key: key, Name: f.Name, Data: fileData(f)})
+		files = append(files, mpFile{Key: key, Name: f.Name, Data: fileData(f), ContentType: f.ContentType})
 	}
 	mapJSON, _ := json.Marshal(fm)
 	body, ct := buildMultipart([][2]string{{"operations", string(opsJSON)}, {"map", string(mapJSON)}}, files)
@@ -499,7 +512,8 @@ func genUploadCase(t *rapid.T) (*UploadCase, []string) {
 	fileNames := []string{"a.txt", "b c.bin", `q"uote.txt`, "ünï.png", "x"}
 	i := 0
 	for i < len(allSlots) {
-		f := UploadFile{Name: rapid.SampledFrom(fileNames).Draw(t, "fname")}
+		f := UploadFile{Name: rapid.SampledFrom(fileNames).Draw(t, "fname"),
+			ContentType: rapid.SampledFrom([]string{"", "", "image/png", "text/plain; charset=utf-8"}).Draw(t, "fctype")}
 		size := rapid.SampledFrom([]int{0, 1, 7, 200, 5000, 65536}).Draw(t, "fsize")
 		data := make([]byte, size)
 		seed := rapid.IntRange(0, 255).Draw(t, "fseed")
@@ -538,7 +552,7 @@ func c19Gates(labels []string, c *UploadCase) []string {
 
 func TestC19(t *testing.T) {
 	rec := ev.Get("C19")
-	rec.Rule = "well-formed GraphQL multipart requests (single and batched 1..3 operations) against a two-service world whose mutations take Upload at top level, in lists, inside input objects (also in a list inside an object and two levels deep), the list or input object either a whole variable or a literal with Upload variables inside it; 1..3 root fields per operation over both services, selections on the returned entity that need child steps of which some take an Upload argument themselves (a child step with a file next to child steps without), a variable possibly used by two fields/services, one file attached at 1..3 paths, file names with quotes/unicode/spaces, contents 0..64 KiB; built by the harness's own encoder. Oracle: response equals the reference executor; every service whose sub-request declares the variable receives a multipart request in which the same path refers to a part with the same file name and bytes; services that do not use the variable receive plain JSON and no file; non-trivial = a file below an object or list level, or used by 2 services, or one file at >=2 paths; distinct by hash(case)"
+	rec.Rule = "well-formed GraphQL multipart requests (single and batched 1..3 operations) against a two-service world whose mutations take Upload at top level, in lists, inside input objects (also in a list inside an object and two levels deep), the list or input object either a whole variable or a literal with Upload variables inside it; 1..3 root fields per operation over both services, selections on the returned entity that need child steps of which some take an Upload argument themselves (a child step with a file next to child steps without), a variable possibly used by two fields/services, one file attached at 1..3 paths, parts declared as application/octet-stream, image/png or text/plain, file names with quotes/unicode/spaces, contents 0..64 KiB; built by the harness's own encoder. Oracle: response equals the reference executor; every service whose sub-request declares the variable receives a multipart request in which the same path refers to a part with the same file name and bytes; services that do not use the variable receive plain JSON and no file; non-trivial = a file below an object or list level, or used by 2 services, or one file at >=2 paths; distinct by hash(case)"
 	defer census.dump("C19")
 	rapid.Check(t, func(t *rapid.T) {
 		c, labels := genUploadCase(t)
@@ -616,6 +630,28 @@ func TestC19Large(t *testing.T) {
 			if gateClosed(g) {
 				return
 			}
+		}
+		if rapid.IntRange(0, 2).Draw(t, "sharedbig") > 0 {
+			// one large file named by several operations of a batch (and by both services): every one of them reads it
+			n := rapid.IntRange(2, 3).Draw(t, "sharedops")
+			c = &UploadCase{World: uploadWorld(), Batch: true}
+			f := UploadFile{Name: "big.bin"}
+			for i := 0; i < n; i++ {
+				name := fmt.Sprintf("Sh%d", i)
+				q := fmt.Sprintf("mutation %s($v%d_0: Upload) { f0: upload(file: $v%d_0, name: \"x\") { id name } }", name, i, i)
+				switch rapid.IntRange(0, 2).Draw(t, "sharedshape") {
+				case 1:
+					q = fmt.Sprintf("mutation %s($v%d_0: Upload!) { f0: attach(file: $v%d_0, note: \"n\") { id phone } }", name, i, i)
+				case 2:
+					// the file is only read by a child step, after the root step of this operation was answered
+					q = fmt.Sprintf("mutation %s($v%d_0: Upload) { f0: upload(name: \"x\") { id name verify(doc: $v%d_0) } }", name, i, i)
+				}
+				c.Ops = append(c.Ops, gwx.GQLRequest{Query: q, Variables: map[string]interface{}{fmt.Sprintf("v%d_0", i): nil}, OperationName: &name})
+				f.Paths = append(f.Paths, fmt.Sprintf("%d.variables.v%d_0", i, i))
+			}
+			c.Files = []UploadFile{f}
+			c.SlowPlainUS = rapid.SampledFrom([]int{0, 300000, 800000}).Draw(t, "slowplain")
+			labels = []string{"batch", "oneFileManyPaths", "oneLargeFileSeveralOperations"}
 		}
 		big := rapid.IntRange(0, len(c.Files)-1).Draw(t, "bigfile")
 		for i := range c.Files {
